@@ -629,3 +629,97 @@ Proof.
   destruct dfs as [|df dfs]; [cbn in H2; lia|].
   destruct k as [|k]; [reflexivity|]. cbn [energy_terms nth]. apply IH; cbn in *; lia.
 Qed.
+
+(* ================================================================== *)
+(* the resampled spectrum of a non-negative spectrum is non-negative    *)
+(* ================================================================== *)
+Lemma count_le_spec : forall xp x,
+  (forall j, (j < count_le xp x)%nat -> nth j xp 0 <= x) /\
+  ((count_le xp x < length xp)%nat -> x < nth (count_le xp x) xp 0) /\
+  (count_le xp x <= length xp)%nat.
+Proof.
+  induction xp as [|a t IH]; intros x.
+  - cbn. repeat split; intros; lia.
+  - cbn [count_le]. destruct (Rle_dec a x) as [Ha|Ha].
+    + destruct (IH x) as (H1 & H2 & H3). repeat split.
+      * intros j Hj. destruct j as [|j]; [exact Ha|]. cbn [nth]. apply H1. lia.
+      * intros Hl. cbn [nth]. apply H2. cbn [length] in Hl. lia.
+      * cbn [length]. lia.
+    + repeat split; [intros; lia| |cbn [length]; lia]. intros _. cbn [nth]. lra.
+Qed.
+
+Lemma nth_nonneg : forall (l : list R) i, (forall v, In v l -> 0 <= v) -> 0 <= nth i l 0.
+Proof.
+  intros l i H. destruct (lt_dec i (length l)) as [Hi|Hi].
+  - apply H. apply nth_In. exact Hi.
+  - rewrite nth_overflow by lia. lra.
+Qed.
+
+Lemma interp0_nonneg : forall xp e x, (forall v, In v e -> 0 <= v) -> 0 <= interp0 xp e x.
+Proof.
+  intros xp e x He. unfold interp0.
+  destruct (Rlt_dec x (hd 0 xp)) as [H0|H0]; [lra|].
+  destruct (Rlt_dec (last xp 0) x) as [H1|H1]; [lra|].
+  destruct (Req_EM_T x (last xp 0)) as [H2|H2].
+  - rewrite last_nth_eq. apply nth_nonneg. exact He.
+  - destruct (count_le_spec xp x) as (Hb & Ha & Hl).
+    set (i1 := count_le xp x) in *.
+    assert (Hxl : x < last xp 0) by lra.
+    assert (Hlt : (i1 < length xp)%nat).
+    { destruct (lt_dec i1 (length xp)) as [H|H]; [exact H|]. exfalso.
+      assert (i1 = length xp) by lia.
+      destruct xp as [|a t]; [cbn in *; lra|].
+      assert (last (a :: t) 0 <= x).
+      { rewrite last_nth_eq. apply Hb. cbn [length] in *. lia. }
+      lra. }
+    assert (Hpos : (1 <= i1)%nat).
+    { destruct xp as [|a t]; [cbn in Hlt; lia|]. unfold i1. cbn [count_le hd] in *.
+      destruct (Rle_dec a x); [lia|lra]. }
+    specialize (Ha Hlt). assert (Hb' : nth (i1 - 1) xp 0 <= x) by (apply Hb; lia).
+    set (x0 := nth (i1 - 1) xp 0) in *. set (x1 := nth i1 xp 0) in *.
+    assert (Hd : 0 < x1 - x0) by lra.
+    assert (Hf0 : 0 <= (x - x0) / (x1 - x0)).
+    { unfold Rdiv. apply Rmult_le_pos; [lra|]. left. apply Rinv_0_lt_compat. exact Hd. }
+    assert (Hf1 : (x - x0) / (x1 - x0) <= 1).
+    { apply Rmult_le_reg_r with (x1 - x0); [exact Hd|].
+      unfold Rdiv. rewrite Rmult_assoc, Rinv_l, Rmult_1_r by lra. lra. }
+    pose proof (nth_nonneg e (i1 - 1) He). pose proof (nth_nonneg e i1 He).
+    apply Rplus_le_le_0_compat; apply Rmult_le_pos; lra.
+Qed.
+
+(* the variance statement for a 1D spectrum (non-negative, any frequency grid) *)
+Lemma variance_1d : forall c fs n xp e phases t s,
+  (4 <= n)%nat -> 0 < fs ->
+  length phases = (nfft n / 2)%nat ->
+  (forall row, In row phases -> (1 <= length row)%nat) ->
+  (forall v, In v e -> 0 <= v) ->
+  surface_timeseries c fs n xp (cols1d e) phases = Some (t, s) ->
+  variance s = sumR (tl (energy_terms c xp (fft_freqs fs n) (frequency_step (fft_freqs fs n)) 0 1 e)).
+Proof.
+  intros c fs n xp e phases t s Hn Hfs Hph Hrows He H.
+  pose proof (variance_of_timeseries c fs n xp (cols1d e) phases 0 t s Hn Hfs) as V.
+  cbn [cols1d nth length] in V. apply V.
+  - lia.
+  - exact Hph.
+  - exact Hrows.
+  - intros i x Hi Hl. lia.
+  - lra.
+  - intros x. apply interp0_nonneg. exact He.
+  - exact H.
+Qed.
+
+Lemma variance_1d_example : exists t s,
+  surface_timeseries CZ 2 4 [1 / 4; 1] (cols1d [1; 1]) [[0]; [0]] = Some (t, s) /\
+  variance s = sumR (tl (energy_terms CZ [1 / 4; 1] (fft_freqs 2 4) (frequency_step (fft_freqs 2 4)) 0 1 [1; 1])).
+Proof.
+  destruct (surface_timeseries CZ 2 4 [1 / 4; 1] (cols1d [1; 1]) [[0]; [0]]) as [[t s]|] eqn:E.
+  - exists t, s. split; [reflexivity|].
+    apply (variance_1d CZ 2 4 [1 / 4; 1] [1; 1] [[0]; [0]] t s).
+    + apply le_n.
+    + apply Rlt_0_2.
+    + reflexivity.
+    + intros row [<-|[<-|[]]]; apply le_n.
+    + intros v [<-|[<-|[]]]; apply Rle_0_1.
+    + exact E.
+  - exfalso. apply raises_iff_short in E. lia.
+Qed.
